@@ -241,7 +241,11 @@ def check(pid, tier, only=None, jobs=None, seed=0, quiet=False):
                           'args': res['args'], 'post': res['post']}
                     rp = run_replay(rj)
                     entry['replay'] = {k: rp.get(k) for k in ('value', 'exception', 'post_holds', 'fatal')}
-                    if rp.get('post_holds') is False and 'fatal' not in rp:
+                    if rp.get('harness_fault'):
+                        status['harness_errors'].append(
+                            '%s: the harness does not fit this code shape (%s) - nothing decided for this obligation'
+                            % (label, (rp.get('exception') or '')[:200]))
+                    elif rp.get('post_holds') is False and 'fatal' not in rp:
                         os.makedirs(replay_dir, exist_ok=True)
                         h = hashlib.sha256(json.dumps(rj, sort_keys=True).encode()).hexdigest()[:10]
                         path = os.path.join(replay_dir, '%s-%s.json' % (ob.name, h))
@@ -318,6 +322,21 @@ def check(pid, tier, only=None, jobs=None, seed=0, quiet=False):
 
     shutil.rmtree(workdir, ignore_errors=True)
 
+    # --- representation probes: counterexamples only count if the internals the harness relies on are as assumed
+    probe_info = run_replay({'mode': 'probe', 'module': modname}, timeout=120) if getattr(hmod, 'PROBES', None) else {'probes': {}}
+    failed_probes = sorted(k for k, v in (probe_info.get('probes') or {}).items() if not v)
+    if probe_info.get('fatal'):
+        failed_probes = ['probe run failed: %s' % probe_info['fatal'][:100]]
+    if failed_probes and (status['violations'] or status['known_seen']):
+        for label, path, rep in status['violations']:
+            status['harness_errors'].append('%s: counterexample not reported - representation probe(s) %s failed: the '
+                                            'internals this harness injects states through have changed, nothing is '
+                                            'decided' % (label, ', '.join(failed_probes)))
+        status['violations'] = []
+        status['known_seen'] = []
+    elif failed_probes:
+        log('NOTE property=%s representation probe(s) failed: %s' % (pid, ', '.join(failed_probes)))
+
     # --- report
     printed = set()
     for f, args in status['known_seen']:
@@ -359,6 +378,7 @@ def check(pid, tier, only=None, jobs=None, seed=0, quiet=False):
             'solver_queries': int(tot['solver_calls']), 'solver_time_s': round(tot['solver_time_s'], 2),
             'cpu_s': round(tot['cpu_s'], 1),
             'translator_validation': tv,
+            'representation_probes': probe_info.get('probes'),
             'concrete_dry_runs': None if dry_info is None else {k: dry_info.get(k) for k in ('dry_runs', 'n_dry_failures')},
             'stubs': getattr(hmod, 'STUBS', []),
             'outside_claim': getattr(hmod, 'OUTSIDE', []),
